@@ -6,7 +6,11 @@
     term re-check, wait on fsmTarget, serve).  Invariants StateMachineSafety, OneLeaderPerTerm and
     ReadLin (a completed linearizable or strong read reflects every write acknowledged before it
     began) on 3 nodes; negative controls UpgradeStrong, VerifyQuorum, RecheckTerm, StrongThroughLog
-    each yield the witness in which exactly that guard stops a stale read.
+    each yield the witness in which exactly that guard stops a stale read.  With log compaction
+    (TakeSnapshot / InstallSnapshot / restart from the snapshot; configs Cluster_mc_snap*.cfg) the
+    database contents are part of the state: DbIsLogPrefix, SnapshotIsLogPrefix and ReadSeesAcked
+    (the read saw every acknowledged write, by content); negative controls InstallReplacesDb,
+    SnapAtApplied.
 (C) real 3- and 5-node clusters (full nodes: store + cluster service + proxy + HTTP) in one process
     on a faulty network; concurrent clients issue writes and reads at every level over HTTP to ANY
     node (so forwarding is included) while a fault injector steps leaders down, transfers
@@ -32,6 +36,12 @@ def run(ctx):
         vlib.tlc_mc(ctx, "MCCluster", "Cluster_mc_restart.cfg", coverage=False, heap="16g", timeout=3000)   # + one node restart (volatile state lost)
     for sw in ("UpgradeStrong", "VerifyQuorum", "StrongThroughLog") + (("RecheckTerm",) if ctx.thorough else ()):
         vlib.tlc_neg(ctx, "MCCluster", "Cluster_neg_%s.cfg" % sw, expect="ReadLin", heap="16g", timeout=3000)
+    # log compaction, snapshot install on a lagging follower, restart from the snapshot; database contents in the state
+    vlib.tlc_mc(ctx, "MCCluster", ctx.pick("Cluster_mc_snapq.cfg", "Cluster_mc_snap.cfg"), coverage=False, heap="20g", timeout=3000)
+    if ctx.thorough:
+        vlib.tlc_mc(ctx, "MCCluster", "Cluster_mc_snap5.cfg", coverage=False, heap="24g", timeout=6000)
+    vlib.tlc_neg(ctx, "MCCluster", "Cluster_neg_InstallReplacesDb.cfg", expect="DbIsLogPrefix", heap="8g", timeout=3000)
+    vlib.tlc_neg(ctx, "MCCluster", "Cluster_neg_SnapAtApplied.cfg", expect="SnapshotIsLogPrefix", heap="8g", timeout=3000)
     tr = os.path.join(ctx.scratch, "cluster.ndjson")
     p = ctx.run_harness(["cluster-trace", "-out", tr, "-runs", str(ctx.pick(4, 40)), "-clients", "5",
                          "-ops", str(ctx.pick(150, 250)), "-faults", str(ctx.pick(6, 10)), "-dir", ctx.sub("cl")], timeout=3300)
@@ -74,6 +84,21 @@ def run(ctx):
     ctx.cov["client_ops"] = st["Ops"]
     ctx.cov["faults_injected"] = st["Faults"]
     rows = vlib.read_nd(tr)
+    # snapshot installs on live nodes: an fsm.restore that is not the first FSM event of the node's life
+    fresh, installs = set(), 0
+    for r in rows:
+        if r.get("ev") == "reset":
+            fresh = set()
+        elif r.get("ev") == "fsm.reset":
+            fresh.add(r.get("inst"))
+        elif r.get("ev") == "fsm.apply":
+            fresh.discard(r.get("inst"))
+        elif r.get("ev") == "fsm.restore":
+            if r.get("inst") not in fresh:
+                installs += 1
+            fresh.discard(r.get("inst"))
+    ctx.cov["snapshots_taken"] = st.get("Snapshots", 0)
+    ctx.cov["snapshot_installs_on_live_nodes"] = installs
     ctx.sample([r for r in rows if r.get("ev", "").startswith(("c.", "note"))][40:52])
     ctx.cov["exhaustive"] = False
     ctx.assumptions += ["hashicorp/raft implements Raft; the harness network cuts connections at the dialing side",
